@@ -13,6 +13,19 @@ from koreo.result import NonOkOutcome, PermFail
 from koreo.cel.prepare import Index, Overlay
 
 
+def _dump_tree(tree) -> str:
+    """The failing sub-expression as text. `tree_dump` itself can raise (celpy
+    can not dump some trees, e.g. ones containing an empty map literal); error
+    reporting must never turn into a new failure."""
+    if not tree:
+        return ""
+
+    try:
+        return tree_dump(tree)
+    except Exception:
+        return ""
+
+
 def evaluate(
     expression: celpy.Runner | None, inputs: dict[str, celtypes.Value], location: str
 ) -> None | celtypes.Value | PermFail:
@@ -28,7 +41,7 @@ def evaluate(
         return expression_value
 
     except celpy.CELEvalError as err:
-        tree = tree_dump(err.tree) if err and err.tree else ""
+        tree = _dump_tree(err.tree) if err else ""
         return PermFail(
             message=f"Error evaluating `{location}` (at {tree}) {err.args}",
             location=tree,
@@ -61,7 +74,7 @@ def evaluate_predicates(
         return predicate_to_koreo_result(raw_result, location=location)
 
     except celpy.CELEvalError as err:
-        tree = tree_dump(err.tree) if err and err.tree else ""
+        tree = _dump_tree(err.tree) if err else ""
         return PermFail(
             message=f"Error evaluating `{location}` (at {tree}) {err.args}",
             location=tree,
@@ -96,7 +109,7 @@ def evaluate_overlay(
             )
 
     except celpy.CELEvalError as err:
-        tree = tree_dump(err.tree) if err and err.tree else ""
+        tree = _dump_tree(err.tree) if err else ""
         return PermFail(
             message=f"Error evaluating `{location}` (at {tree}) {err.args}",
             location=tree,
@@ -141,7 +154,7 @@ def check_for_celevalerror(
 ) -> None | PermFail:
     match value:
         case celpy.CELEvalError(tree=error_tree):
-            tree = tree_dump(error_tree) if error_tree else ""
+            tree = _dump_tree(error_tree)
             return PermFail(
                 message=f"Error evaluating `{location}` (at {tree}) {value.args}",
                 location=tree,
